@@ -417,6 +417,7 @@ type FuncContract struct {
 	Pure       bool // no heap writes, no allocation visible to the caller
 	NoOverflow bool
 	MayPanic   bool // callers must not rely on absence of panics
+	NoLocks    bool // the function is entered with no mutex held (obligation at call sites)
 	NoNilCheck bool // nil dereferences are not checked (pointers into node-internal structures)
 	NoPanicCheck bool // do not emit nopanic obligations (functional contract only)
 	DataInv    []Clause // representation invariant: assumed at entry and after every abstracted call, proved at exit
@@ -480,7 +481,7 @@ type ContractFile struct {
 
 var clauseKW = map[string]bool{"mapval": true, "global": true, "func": true, "spec": true, "uf": true, "lemma": true, "axiom": true,
 	"props": true, "requires": true, "ensures": true, "panics": true, "modifies": true, "loop": true,
-	"inline": true, "assumed": true, "pure": true, "nooverflow": true, "maypanic": true, "nopaniccheck": true, "nonilcheck": true,
+	"inline": true, "assumed": true, "pure": true, "nooverflow": true, "maypanic": true, "nopaniccheck": true, "nonilcheck": true, "nolocks": true,
 	"split": true, "excuse": true, "makebound": true, "recspec": true, "induct": true, "datainv": true}
 
 var labelRe = regexp.MustCompile(`^([A-Za-z_][A-Za-z0-9_]*):\s+(.*)$`)
@@ -764,6 +765,8 @@ func parseContractFile(path, pkg string) (*ContractFile, error) {
 				cur.NoPanicCheck = true
 			case "nonilcheck":
 				cur.NoNilCheck = true
+			case "nolocks":
+				cur.NoLocks = true
 			default:
 				return nil, fmt.Errorf("%s: unknown clause %q", pos, kw)
 			}
